@@ -374,6 +374,17 @@ func derivedChecks(c *fw.Ctx, p ref.Pos) {
 		sq := (i*11 + int(p.Half)) % 64
 		white := i%2 == 0
 		sub := subsets[i%len(subsets)]
+		if i%3 == 2 {
+			// a caller's own list: any pieces in any order
+			perm := append([]board.Piece{}, board.AllPieces...)
+			k := int(p.Half+p.Full+i) % 720
+			for j := len(perm) - 1; j > 0; j-- {
+				x := k % (j + 1)
+				k /= j + 1
+				perm[j], perm[x] = perm[x], perm[j]
+			}
+			sub = perm[:1+(int(p.Half)+i)%len(perm)]
+		}
 		want := false
 		for _, a := range p.Attackers(sq, !white) {
 			k := p.B[a]
